@@ -152,6 +152,18 @@ CHECKS['C01'] = dict(
     design='4 (C01), 6 (D1, D2, D12, D20)',
     technique='Coq proofs by induction on the YAML graph over a functional loader model + the plain-evaluation theorem; vm_compute correspondence loader vs model on tagged text; tagged-vs-erased twin oracle through PyYAML for replays')
 
+CHECKS['C06'] = dict(
+    text='Machine-checked: C06_splice_is_concatenation (for EVERY way of splitting a document sequence into single documents and top-level include groups the build equals the build of the '
+         'concatenation - n sources, one multi-document source, one !include [f1..fn] and n top-level includes are instances), C06_nested_include (key: !include [..] rebuilds the parent with '
+         'exactly the merged content of the files adopted under key, failing iff the merge fails; C06_nested_include_same_data), C06_no_stream_is_identity (without includes the stream machinery '
+         'is Builder.flatten), and for ANY file system C06_lookup_order / C06_missing_files_named / C06_found_files_in_order (including directory first, then cwd; failure iff a name is found '
+         'nowhere, naming exactly those). The stream model is tied to Builder.preprocess/flatten by correspondence on real temp-directory includes, the lookup model exhaustively over all '
+         'placements of <= 3/4 names. Partial: file reading / PyYAML parsing / os.path are outside the model; the !path reference-point clause and "records the file it came from" are decided by '
+         'the implementation oracle over 9 spellings of the same file (not a theorem).',
+    design='4 (C06)',
+    technique='Coq proofs about the stream splice/expand model and the lookup function (file system as a section variable); vm_compute correspondence on preprocessed include trees and all lookup '
+              'placements; temp-directory layout / lookup / !path oracles for replays')
+
 NOT_APPLICABLE = {}
 
 
